@@ -354,3 +354,239 @@ def evaluate(case, ctx):
     if ctx["pid"] == "C08":
         return eval_c08(case, ctx)
     raise AssertionError(ctx["pid"])
+
+
+# ===========================================================================
+# C17: a reload reaches the decision modules (differential vs. fresh start)
+
+import copy
+import re
+
+RULE_FIELDS = {
+    "class": ["c1", "c2", "opers", "users"],
+    "hostname": ["*.example.org", "trusted.*", "*", "a.example.org"],
+    "username": ["joe", "~*", "*", "oper"],
+    "account": ["alice", "al*", "*", "bob"],
+    "address": ["10.0.0.0/8", "10.1.0.0/16", "127.*", "2001:db8::/32", "*"],
+    "trust_username": ["true", "false"],
+}
+C17_SVCS = ["login.ex", "bot.ex", "comb.ex", "ipr.ex", "extra.ex"]
+C17_RULES = ["r1", "r2", "R3", "alpha", "Beta", "zz"]
+
+
+@st.composite
+def c17_rule_s(draw, name, svcs):
+    f = {}
+    for k in draw(st.lists(st.sampled_from(sorted(RULE_FIELDS)), max_size=3, unique=True)):
+        f[k] = draw(st.sampled_from(RULE_FIELDS[k]))
+    if svcs and draw(st.integers(0, 4)) == 0:
+        f["xreply_ok"] = draw(st.sampled_from(svcs))
+    return [name, f]
+
+
+@st.composite
+def c17_tables_s(draw):
+    ns = draw(st.integers(0, 4))
+    names = draw(st.permutations(C17_SVCS))[:ns]
+    services = [[n, draw(st.sampled_from(proto.PROTOCOLS))] for n in names]
+    nr = draw(st.integers(0, 4))
+    rn = draw(st.permutations(C17_RULES))[:nr]
+    rules = [draw(c17_rule_s(n, names)) for n in rn]
+    return services, rules
+
+
+EDITS = ["add_svc", "del_svc", "proto_inplace", "add_rule", "del_rule", "rule_field_inplace", "rule_add_criterion", "rule_del_criterion", "noop",
+         "del_svc", "add_svc", "proto_inplace", "rule_field_inplace"]
+
+
+def apply_edit(draw, services, rules):
+    services = copy.deepcopy(services)
+    rules = copy.deepcopy(rules)
+    kind = draw(st.sampled_from(EDITS))
+    used = [s[0] for s in services]
+    if kind == "add_svc":
+        free = [n for n in C17_SVCS if n not in used]
+        if free:
+            services.insert(draw(st.integers(0, len(services))), [draw(st.sampled_from(free)), draw(st.sampled_from(proto.PROTOCOLS))])
+    elif kind == "del_svc" and services:
+        services.pop(draw(st.integers(0, len(services) - 1)))
+    elif kind == "proto_inplace" and services:
+        s = services[draw(st.integers(0, len(services) - 1))]
+        s[1] = draw(st.sampled_from([p for p in proto.PROTOCOLS if p != s[1]]))
+    elif kind == "add_rule":
+        free = [n for n in C17_RULES if n not in [r[0] for r in rules]]
+        if free:
+            rules.append(draw(c17_rule_s(draw(st.sampled_from(free)), used)))
+    elif kind == "del_rule" and rules:
+        rules.pop(draw(st.integers(0, len(rules) - 1)))
+    elif kind == "rule_field_inplace" and rules:
+        r = rules[draw(st.integers(0, len(rules) - 1))]
+        if r[1]:
+            k = draw(st.sampled_from(sorted(r[1])))
+            if k in RULE_FIELDS:
+                r[1][k] = draw(st.sampled_from([v for v in RULE_FIELDS[k] if v != r[1][k]]))
+        else:
+            kind = "rule_add_criterion"
+    if kind == "rule_add_criterion" and rules:
+        r = rules[draw(st.integers(0, len(rules) - 1))]
+        free = [k for k in RULE_FIELDS if k not in r[1]]
+        if free:
+            k = draw(st.sampled_from(free))
+            r[1][k] = draw(st.sampled_from(RULE_FIELDS[k]))
+    elif kind == "rule_del_criterion" and rules:
+        r = rules[draw(st.integers(0, len(rules) - 1))]
+        if r[1]:
+            del r[1][draw(st.sampled_from(sorted(r[1])))]
+    return kind, services, rules
+
+
+@st.composite
+def c17_s(draw, pid, tier, opts=None):
+    services, rules = draw(c17_tables_s())
+    steps = []
+    cur_s, cur_r = services, rules
+    kinds = []
+    for _ in range(draw(st.sampled_from([1, 1, 1, 2, 2, 3]))):
+        k, cur_s, cur_r = apply_edit(draw, cur_s, cur_r)
+        kinds.append(k)
+        steps.append([cur_s, cur_r])
+    mk = lambda s, r: {"modules": ["iauth_class", "iauth_xquery"], "services": s, "rules": r, "timeout": 0, "logs": [["*.>=info", "file:iauthd.log"]]}
+    confs = [mk(services, rules)] + [mk(s, r) for s, r in steps]
+    # traffic before the reload: clients that may leave queries outstanding
+    pre = []
+    if draw(st.booleans()):
+        for cid in (1, 2)[:draw(st.integers(1, 2))]:
+            pre += [["C", cid, "10.9.9.9", 1111], ["N", cid, "pre.example.org"], ["u", cid, "pre"], ["n", cid, "Pre%d" % cid],
+                    ["U", cid, "pre", "pre client"], ["P", cid, "+x alice pw"]]
+            for s in draw(st.lists(st.sampled_from([x[0] for x in services] or ["none.ex"]), max_size=3)):
+                pre.append(["X", cid, s, draw(st.sampled_from(["OK", "OK alice", "AGAIN x"])), "cur"])
+    # probes: clients touching every service and rule of the final table
+    probes = []
+    final_svcs = [s[0] for s in confs[-1]["services"]]
+    for ci in range(draw(st.integers(1, 3))):
+        cid = 50 + ci
+        ip = draw(st.sampled_from(["10.1.2.3", "10.200.0.1", "127.0.0.1", "2001:db8:0:0:0:0:0:1", "192.168.1.1"]))
+        host = draw(st.sampled_from(["a.example.org", "trusted.net", "x.y", ""]))
+        ident = draw(st.sampled_from(["joe", "~joe", "oper", "~web"]))
+        acct = draw(st.sampled_from(["alice", "bob", None]))
+        sc = [["C", cid, ip, 2000 + ci], ["N", cid, host] if host else ["d", cid], ["u", cid, ident], ["n", cid, "Probe%d" % ci],
+              ["U", cid, "claimed", "probe client"]]
+        if acct:
+            sc.append(["P", cid, "+x %s pw" % acct])
+        sc.append(["raw", "-1 ? config"])
+        for s in draw(st.permutations(final_svcs + ["login.ex"] if not final_svcs else final_svcs)):
+            sc.append(["X", cid, s, ("OK %s" % acct) if acct and draw(st.booleans()) else "OK", "cur"])
+        sc.append(["H", cid])
+        probes += sc
+    return {"confs": confs, "edits": kinds, "pre": pre, "probes": probes}
+
+
+def masked(lines):
+    out = []
+    for ln in lines:
+        m = ep2.TAG_RE.match(ln)
+        if m:
+            out.append("X %s %s_* :%s" % (m.group(1), m.group(2), ln[m.end():]))
+        elif ln.startswith("A xquery :-"):
+            continue        # unconfigured entry kept alive by outstanding references
+        else:
+            out.append(ln)
+    return sorted(out)
+
+
+def run_c17(confs, pre, probes, workdir, reload_):
+    d = dm.Daemon(ep.conf_text(confs[0] if reload_ else confs[-1]), workdir)
+    steps = []
+    try:
+        try:
+            banner = [b.decode("latin-1") for b in d.start()]
+        except dm.DaemonDied:
+            d.finish()
+            return None, "did not start"
+        # the model is only used to resolve routing tags; it follows the final table
+        spec = proto.Spec(proto.Conf(confs[-1]), ep.policies_of(banner))
+        try:
+            if reload_:
+                for i, ev in enumerate(pre):
+                    line = ep.concretize(ev, spec)
+                    spec.feed_input(i, line)
+                    out, _, _ = d.step(line)
+                    spec.feed_output(i, [b.decode("latin-1") for b in out])
+                for c in confs[1:]:
+                    d.reload(ep.conf_text(c))
+            for i, ev in enumerate(probes):
+                line = ep.concretize(ev, spec)
+                spec.feed_input(1000 + i, line)
+                out, _, _ = d.step(line)
+                out = [b.decode("latin-1") for b in out]
+                spec.feed_output(1000 + i, out)
+                steps.append((line, masked(out)))
+        except (dm.DaemonDied, dm.DaemonHang):
+            return None, "died"
+        rc, rest, err = d.finish()
+        mem, _, _ = dm.classify_stderr(err)
+        if mem:
+            return None, "sanitizer: " + mem[0][:200]
+    finally:
+        if d.p.poll() is None:
+            d.kill()
+    return steps, None
+
+
+def classify_c17(case, a_line, b_out, a_out):
+    edits = set(case["edits"])
+    txt = " ".join(b_out + a_out)
+    if "proto_inplace" in edits and ("X " in txt or "A xquery" in txt):
+        return "stale_protocol_inplace"
+    if edits & {"rule_field_inplace", "rule_add_criterion", "rule_del_criterion"} and not edits & {"add_svc", "del_svc", "proto_inplace"}:
+        return "stale_rule_inplace"
+    if "add_svc" in edits and "del_svc" in edits:
+        return "service_readded_dropped"
+    return "reload_differs"
+
+
+def eval_c17(case, ctx):
+    res = CaseResult()
+    wd = os.path.join(ctx["root"], "c")
+    shutil.rmtree(wd, ignore_errors=True)
+    a, err = run_c17(case["confs"], case["pre"], case["probes"], wd, True)
+    if a is None:
+        if err and err.startswith("sanitizer"):
+            res.violations.append(V("C17", "memory_error_on_reload", "reloaded daemon: " + err))
+        else:
+            res.inconclusive = "sut_died"
+        return res
+    shutil.rmtree(wd, ignore_errors=True)
+    b, err = run_c17(case["confs"], [], case["probes"], wd, False)
+    if b is None:
+        res.inconclusive = "sut_died"
+        return res
+    for i, ((la, oa), (lb, ob)) in enumerate(zip(a, b)):
+        if oa != ob:
+            sig = classify_c17(case, la, ob, oa)
+            res.violations.append(V("C17", sig, "edits %s: probe step %d (%r): reloaded daemon answers %r, a daemon freshly started on the new file answers %r"
+                                    % (case["edits"], i, la[:80], oa, ob)))
+            break
+    for k in case["edits"]:
+        res.classes.add("edit_" + k)
+    if case["pre"]:
+        res.classes.add("traffic_before_reload")
+    res.nontrivial = any(k != "noop" for k in case["edits"]) and any(o for _, o in b)
+    return res
+
+
+_old_strategy = strategy
+_old_evaluate = evaluate
+
+
+def strategy(pid, tier, opts):   # noqa: F811
+    if pid == "C17":
+        return c17_s(pid, tier, opts)
+    return _old_strategy(pid, tier, opts)
+
+
+def evaluate(case, ctx):   # noqa: F811
+    if ctx["pid"] == "C17":
+        ctx["n"] += 1
+        return eval_c17(case, ctx)
+    return _old_evaluate(case, ctx)
